@@ -5,6 +5,7 @@ import (
 	"encoding/hex"
 	"encoding/json"
 	"fmt"
+	"os"
 	"reflect"
 	"testing"
 	"time"
@@ -55,7 +56,7 @@ type decodeResult struct {
 	hung     bool
 }
 
-const hangLimit = 60 * time.Second
+const hangLimit = 10 * time.Second
 
 // decodeInto runs one decode under a watchdog and with panic capture.
 func decodeInto(enc string, data []byte, tg target) decodeResult {
@@ -106,6 +107,9 @@ func (c c02Case) data() []byte {
 }
 
 // c02Run applies every C02 oracle to one input.
+// c02CurrentTest names the test that is running c02Run (for the replay written when a decode does not return).
+var c02CurrentTest = "TestC02Binary"
+
 func c02Run(c c02Case) (sig string, err error) {
 	data := c.data()
 	tg := targetByName(c.Target)
@@ -113,7 +117,11 @@ func c02Run(c c02Case) (sig string, err error) {
 	in := append([]byte{}, data...)
 	r1 := decodeInto(c.Encoding, in, tg)
 	if r1.hung {
-		return "hang:" + c.Encoding, r1.err
+		// the decoder is still running in its goroutine (and usually allocating): no shrinking, no further cases - the
+		// case is saved and the process ends at once
+		p := evid.SaveReplay("C02", c02CurrentTest, "hang:"+c.Encoding, r1.err, c)
+		fmt.Printf("VERIF-FAIL property=C02 test=%s sig=%s replay=%s: %v\n", c02CurrentTest, "hang:"+c.Encoding, p, r1.err)
+		os.Exit(1)
 	}
 	if r1.panicked {
 		return "panic:" + c.Encoding + ":" + errKind(r1.err), r1.err
